@@ -307,7 +307,13 @@ def mailbox_programs(draw, max_actors=6, max_mb=3, max_msgs=10):
             elif k == 3:
                 ag.handle_op()
             elif k == 4 and feat["dumps"]:
-                ag.ops.append(["mb_dump", draw(st.integers(0, nmb - 1))])
+                if draw(st.booleans()):
+                    ag.ops.append(["mb_dump", draw(st.integers(0, nmb - 1))])
+                else:
+                    as_recv = draw(st.booleans())
+                    o = {"id": i, "tag": draw(st.integers(-1, ntags - 1)) if as_recv else draw(st.integers(0, ntags - 1))}
+                    o["src" if as_recv else "dst"] = draw(st.sampled_from([-1, -1, -1] + list(range(nact))))
+                    ag.ops.append(["iprobe", draw(st.integers(0, nmb - 1)), "recv" if as_recv else "send", o])
             filtered = mb_filtered[m] and not (mb_mixed[m] and draw(st.booleans()))
             if kind == "r" and mb_perm[m] == i and draw(st.integers(0, 2)) == 0:
                 ag.ops.append(["sleep", draw(st.sampled_from([1.0, 2.0, 4.0]))])     # let eager messages pile up first
@@ -321,8 +327,15 @@ def mailbox_programs(draw, max_actors=6, max_mb=3, max_msgs=10):
             ag.handle_op()
         if feat["dumps"] and draw(st.integers(0, 2)) == 0:
             ag.ops.append(["sleep", draw(QUARTERS)])
-            ag.ops.append(["mb_dump", draw(st.integers(0, nmb - 1))])
+            m = draw(st.integers(0, nmb - 1))
+            ag.ops.append(["iprobe", m, "recv", {"id": i, "tag": -1, "src": -1}])
+            ag.ops.append(["iprobe", m, "send", {"id": i, "tag": draw(st.integers(0, ntags - 1)), "dst": -1}])
+            ag.ops.append(["mb_dump", m])
         ag.epilogue()
+        if feat["unstarted-timeout"]:
+            # a put_init()->wait_for(t) whose timeout expired stays queued and has no handle: it is cleaned when the actor ends, outside the
+            # request order -> let every actor end at a date of its own, after everything else
+            ag.ops.append(["sleep_until", 4e9 + 16 * i])
     hosts = [draw(st.integers(0, nhosts - 1)) for _ in range(nact)]
     sc = {"platform": platform, "objects": {"mailbox": nmb}, "comm_dump": True, "quiet": ["act", "actor", "adv"],
           "actors": [{"name": "a%d" % i, "host": "h%d" % hosts[i], "ops": ag.ops} for i, ag in enumerate(actors)]}
